@@ -607,6 +607,289 @@ Proof.
       split; [|auto]. intro Hin. apply H. apply tj_excl_mono. assumption.
 Qed.
 
+(* ---------------- C06: restrict_configurations (RandomSearcher) --------------------------- *)
+Lemma restrict_loop_some n rc e ad : forall pos ds c pos' ds',
+  restrict_loop C M meqb ms n rc e ad pos ds = Ok (Some c, pos', ds') -> In c rc /\ ~ In (ms c) e.
+Proof.
+  induction n as [|n IH]; intros pos ds c pos' ds' H; simpl in H; [discriminate|].
+  destruct ds as [|[d|p] ds0]; try discriminate.
+  destruct (nth_error rc p) as [c0|] eqn:En; [|discriminate].
+  destruct (excl_contains e c0) eqn:E; [eapply IH; eauto|].
+  assert (Hc : In c0 rc /\ ~ In (ms c0) e) by (split; [eapply nth_error_In; eauto | apply contains_notIn; assumption]).
+  destruct ad; [injection H as <- _ _; exact Hc|].
+  destruct pos as [ps|]; [injection H as <- _ _; exact Hc | discriminate].
+Qed.
+
+Lemma restrict_loop_none n rc e ad : forall pos ds pos' ds',
+  restrict_loop C M meqb ms n rc e ad pos ds = Ok (None, pos', ds') ->
+  exists ps, ds = map (@DPos C) ps ++ ds' /\ length ps = n /\
+             forall p, In p ps -> exists c, nth_error rc p = Some c /\ In (ms c) e.
+Proof.
+  induction n as [|n IH]; intros pos ds pos' ds' H; simpl in H.
+  - injection H as _ <-. exists []. simpl. repeat split; auto. intros p [].
+  - destruct ds as [|[d|p] ds0]; try discriminate.
+    destruct (nth_error rc p) as [c0|] eqn:En; [|discriminate].
+    destruct (excl_contains e c0) eqn:E.
+    + destruct (IH _ _ _ _ H) as (ps & -> & Hl & Hin). exists (p :: ps). simpl. repeat split; auto.
+      intros q [<-|Hq]; [exists c0; split; [assumption | apply contains_In; assumption] | auto].
+    + destruct ad; [discriminate|]. destruct pos; discriminate.
+Qed.
+
+(* get_config of a RandomSearcher with restrict_configurations, once the initial points are used up *)
+Lemma rs_restrict_get_config (s s' : rs_state) rc ds oc ds' :
+  rs_p2e _ _ s = [] -> rs_restrict _ _ s = Some rc ->
+  rs_get_config s ds = Ok (s', oc, ds') ->
+  match oc with
+  | Some c => In c rc /\ ~ In (ms c) (rs_excl _ _ s)
+  | None => rc = [] \/
+            exists ps, ds = map (@DPos C) ps ++ ds' /\ length ps = rs_retries _ _ s /\
+                       forall p, In p ps -> exists c, nth_error rc p = Some c /\ In (ms c) (rs_excl _ _ s)
+  end.
+Proof.
+  intros Hp Hr H. unfold Searcher.rs_get_config, rs_random_config in H. rewrite Hp, Hr in H.
+  destruct rc as [|x rc'].
+  - injection H as _ <- _. left. reflexivity.
+  - destruct (restrict_loop C M meqb ms (rs_retries C M s) (x :: rc') (rs_excl C M s) (rs_allow_dup C M s)
+                (rs_rcpos C M s) ds) as [[[c1 pos1] ds1]|e1] eqn:El; [|discriminate].
+    destruct c1 as [c1|].
+    + assert (Hoc : oc = Some c1 /\ ds' = ds1).
+      { destruct (rs_allow_dup C M s); [injection H as _ <- <-; auto|].
+        destruct pos1 as [[|p ps]|]; injection H as _ <- <-; auto. }
+      destruct Hoc as [-> ->]. eapply restrict_loop_some; eauto.
+    + injection H as _ <- <-. right. eapply restrict_loop_none; eauto.
+Qed.
+
+(* ---------------- C06: run-level no-repeat for the model-based searcher ---------------- *)
+Lemma lookupZ_app {A} t (l : list (Z * A)) t' (c : A) :
+  lookupZ t (l ++ [(t', c)]) =
+  match lookupZ t l with Some x => Some x | None => if Z.eqb t t' then Some c else None end.
+Proof.
+  induction l as [|[k v] r IH]; simpl; [destruct (Z.eqb t t'); reflexivity|].
+  destruct (Z.eqb t k); [reflexivity | exact IH].
+Qed.
+
+Lemma remZ_In t x l : In x (remZ t l) <-> In x l /\ x <> t.
+Proof.
+  unfold remZ. rewrite filter_In, negb_true_iff, Z.eqb_neq. tauto.
+Qed.
+
+Lemma mem_Z_In x l : mem_Z x l = true <-> In x l.
+Proof.
+  induction l as [|y r IH]; simpl; [split; [discriminate | tauto]|].
+  rewrite orb_true_iff, IH, Z.eqb_eq. split; intros [H|H]; auto.
+Qed.
+
+Definition tracked (tj : tj_state C) (t : Z) : Prop :=
+  In t (tj_pending _ tj) \/ In t (tj_failed _ tj) \/ In t (tj_obs _ tj).
+
+Lemma tracked_excl (tj : tj_state C) t c :
+  tracked tj t -> lookupZ t (tj_cfg _ tj) = Some c -> In (ms c) (tj_excl C M meqb ms tj false).
+Proof.
+  intros Ht Hl. apply tj_excl_In. exists t, c. split; [|auto].
+  destruct Ht as [H|[H|H]]; apply in_or_app; [left; assumption | right | right];
+    apply in_or_app; [left | right]; assumption.
+Qed.
+
+Record mb_inv (init : list C) (s : mb_state C M) (outs : list C) : Prop := {
+  mi_ad : mb_allow_dup _ _ s = false;
+  mi_reg : forall c, In c outs -> exists t, tracked (mb_tj _ _ s) t /\ lookupZ t (tj_cfg _ (mb_tj _ _ s)) = Some c;
+  mi_nd : NoDup outs;
+  mi_p2e_nd : NoDup (mb_p2e _ _ s);
+  mi_p2e_out : forall c, In c (mb_p2e _ _ s) -> ~ In c outs;
+  mi_p2e_init : incl (mb_p2e _ _ s) init;
+  mi_fresh : ms_fresh init outs }.
+
+(* the scheduler numbers trials consecutively: a new trial id is unknown to the searcher *)
+Definition mb_new_id (s : mb_state C M) (t : Z) : Prop :=
+  lookupZ t (tj_cfg _ (mb_tj _ _ s)) = None /\ ~ In t (tj_pending _ (mb_tj _ _ s)) /\ ~ In t (tj_obs _ (mb_tj _ _ s)).
+
+Fixpoint mb_new_ids (s : mb_state C M) (es : list (mb_event C)) : Prop :=
+  match es with
+  | [] => True
+  | e :: r =>
+      match e with MSuggest _ t _ _ _ => mb_new_id s t | _ => True end /\
+      mb_new_ids (fst (mb_step C M meqb ms s e)) r
+  end.
+
+Lemma mb_get_config_shape (s s' : mb_state C M) ds cands opt oc ds' :
+  mb_get_config C M meqb ms s ds cands opt = Ok (s', oc, ds') ->
+  mb_tj _ _ s' = mb_tj _ _ s /\ mb_allow_dup _ _ s' = mb_allow_dup _ _ s /\
+  ((exists c rest, mb_p2e _ _ s = c :: rest /\ oc = Some c /\ mb_p2e _ _ s' = rest) \/
+   (mb_p2e _ _ s = [] /\ mb_p2e _ _ s' = [])).
+Proof.
+  unfold mb_get_config. destruct (mb_p2e C M s) as [|c rest] eqn:Ep.
+  - destruct (mb_pick_random C M s (tj_excl C M meqb ms (mb_tj C M s) false)).
+    + destruct (mb_random_loop C M meqb ms (mb_outer C M s)
+                  (match mb_rs C M s with Some r => r | None => mb_fresh_rs C M s end)
+                  (tj_excl C M meqb ms (mb_tj C M s) false) ds) as [[[r' c'] ds'']|x]; [|discriminate].
+      intro H. injection H as <- _ _. simpl. auto.
+    + destruct (mb_allow_dup C M s || negb (excl_exhausted M (mb_size C M s) (tj_excl C M meqb ms (mb_tj C M s) false)));
+        intro H; injection H as <- _ _; simpl; auto.
+  - intro H. injection H as <- <- _. simpl. split; [reflexivity|]. split; [reflexivity|].
+    left. exists c, rest. auto.
+Qed.
+
+Lemma mb_inv_keep init (s s' : mb_state C M) outs :
+  mb_inv init s outs ->
+  mb_allow_dup _ _ s' = mb_allow_dup _ _ s ->
+  (forall t c, tracked (mb_tj _ _ s) t -> lookupZ t (tj_cfg _ (mb_tj _ _ s)) = Some c ->
+               tracked (mb_tj _ _ s') t /\ lookupZ t (tj_cfg _ (mb_tj _ _ s')) = Some c) ->
+  (mb_p2e _ _ s' = mb_p2e _ _ s \/ (mb_p2e _ _ s = [] /\ mb_p2e _ _ s' = [])) ->
+  mb_inv init s' outs.
+Proof.
+  intros [Had Hreg Hnd Hpn Hpo Hpi Hfr] Ha Ht Hp.
+  assert (Ep : mb_p2e _ _ s' = mb_p2e _ _ s) by (destruct Hp as [Hp|[Hp1 Hp2]]; congruence).
+  constructor; try assumption; try (rewrite Ep; assumption).
+  - congruence.
+  - intros c Hc. destruct (Hreg c Hc) as (t & T1 & T2). exists t. apply Ht; assumption.
+Qed.
+
+Lemma mb_inv_step init s outs e :
+  mb_inv init s outs ->
+  match e with MSuggest _ t _ _ _ => mb_new_id s t | _ => True end ->
+  mb_inv init (fst (mb_step C M meqb ms s e)) (outs ++ suggested (snd (mb_step C M meqb ms s e))).
+Proof.
+  intros I Hid. destruct e as [t ds cands opt|t c|t|t]; simpl.
+  - (* suggest *)
+    destruct (mb_get_config C M meqb ms s ds cands opt) as [[[s' oc] ds']|x] eqn:Eg; simpl;
+      [|rewrite app_nil_r; exact I].
+    destruct (mb_get_config_shape _ _ _ _ _ _ _ Eg) as (Etj & Ead & Hshape).
+    destruct oc as [c|]; simpl.
+    + (* a configuration is suggested and registered as pending for the new trial *)
+      destruct Hid as (Hl & Hp & Ho).
+      unfold mb_register_pending. rewrite Etj.
+      destruct (mem_Z t (tj_pending C (mb_tj C M s))) eqn:Emp; [apply mem_Z_In in Emp; contradiction|].
+      destruct (mem_Z t (tj_obs C (mb_tj C M s))) eqn:Emo; [apply mem_Z_In in Emo; contradiction|].
+      rewrite Hl. simpl.
+      destruct I as [Had Hreg Hnd Hpn Hpo Hpi Hfr].
+      assert (Hnew : ~ In c outs /\ (In c init \/ ~ In (ms c) (map ms outs)) /\
+                     NoDup (mb_p2e _ _ s') /\ (forall c', In c' (mb_p2e _ _ s') -> ~ In c' (outs ++ [c])) /\
+                     incl (mb_p2e _ _ s') init).
+      { destruct Hshape as [(c0 & rest & Ep & Ec & Ep')|(Ep & Ep')].
+        - injection Ec as Ec. subst c0. rewrite Ep in *. rewrite Ep'.
+          assert (Hcr : ~ In c rest) by (inversion Hpn; assumption).
+          assert (Hr : NoDup rest) by (inversion Hpn; assumption).
+          repeat split.
+          + apply Hpo. left; reflexivity.
+          + left. apply Hpi. left; reflexivity.
+          + assumption.
+          + intros c' Hc' Hin. apply in_app_or in Hin as [Hin|[<-|[]]].
+            * eapply Hpo; [right; exact Hc' | exact Hin].
+            * contradiction.
+          + intros x Hx. apply Hpi. right; assumption.
+        - destruct (mb_suggestion_not_excluded s s' ds cands opt c ds' Ep Eg) as [_ Hex].
+          specialize (Hex Had).
+          assert (Hm : ~ In (ms c) (map ms outs)).
+          { intro Hm. apply in_map_iff in Hm as (c' & E' & Hc').
+            destruct (Hreg c' Hc') as (t' & T1 & T2). apply Hex. rewrite <- E'.
+            eapply tracked_excl; eauto. }
+          rewrite Ep'. repeat split.
+          + intro Hc. apply Hm. apply in_map. assumption.
+          + right. assumption.
+          + constructor.
+          + intros c' [].
+          + intros x []. }
+      destruct Hnew as (Hc & Hfc & Hpn' & Hpo' & Hpi').
+      constructor; simpl.
+      * congruence.
+      * intros c' Hc'. apply in_app_or in Hc' as [Hc'|[<-|[]]].
+        -- destruct (Hreg c' Hc') as (t' & T1 & T2). exists t'. split.
+           ++ unfold tracked in *. simpl. destruct T1 as [T1|[T1|T1]]; auto.
+              left. apply in_or_app. left. assumption.
+           ++ rewrite lookupZ_app, T2. reflexivity.
+        -- exists t. split.
+           ++ unfold tracked. simpl. left. apply in_or_app. right. left. reflexivity.
+           ++ rewrite lookupZ_app, Hl, Z.eqb_refl. reflexivity.
+      * apply NoDup_snoc; assumption.
+      * assumption.
+      * assumption.
+      * assumption.
+      * apply ms_fresh_snoc; assumption.
+    + (* nothing suggested *)
+      rewrite app_nil_r. apply (mb_inv_keep init s s' outs I Ead).
+      * intros t' c' T1 T2. rewrite Etj. auto.
+      * destruct Hshape as [(c0 & rest & _ & Ec & _)|(Ep & Ep')]; [discriminate | right; auto].
+  - (* update with a finite value: pending -> observed *)
+    rewrite app_nil_r. apply (mb_inv_keep init s _ outs I); simpl; auto.
+    intros t' c' T1 T2. split.
+    + unfold tracked in *. simpl.
+      destruct (Z.eq_dec t' t) as [->|Hne].
+      * right. right. destruct (mem_Z t (tj_obs C (mb_tj C M s))) eqn:Em;
+          [apply mem_Z_In; assumption | apply in_or_app; right; left; reflexivity].
+      * destruct T1 as [T1|[T1|T1]]; [left; apply remZ_In; auto | auto |].
+        right. right. destruct (mem_Z t (tj_obs C (mb_tj C M s))); [assumption | apply in_or_app; auto].
+    + destruct (lookupZ t (tj_cfg C (mb_tj C M s))); [assumption|]. rewrite lookupZ_app, T2. reflexivity.
+  - (* non-finite value: marked failed *)
+    rewrite app_nil_r. unfold mb_update_nonfinite.
+    destruct (lookupZ t (tj_cfg C (mb_tj C M s))) eqn:El; [|exact I].
+    apply (mb_inv_keep init s _ outs I); simpl; auto.
+    intros t' c' T1 T2. split; [|assumption].
+    unfold tracked in *. simpl. destruct T1 as [T1|[T1|T1]]; auto.
+    right. left. destruct (mem_Z t (tj_failed C (mb_tj C M s))); [assumption | apply in_or_app; auto].
+  - (* failed: pending -> failed *)
+    rewrite app_nil_r. apply (mb_inv_keep init s _ outs I); simpl; auto.
+    intros t' c' T1 T2. split; [|assumption].
+    unfold tracked in *. simpl.
+    destruct (Z.eq_dec t' t) as [->|Hne].
+    + right. left. destruct (mem_Z t (tj_failed C (mb_tj C M s))) eqn:Em;
+        [apply mem_Z_In; assumption | apply in_or_app; right; left; reflexivity].
+    + destruct T1 as [T1|[T1|T1]]; [left; apply remZ_In; auto | | auto].
+      right. left. destruct (mem_Z t (tj_failed C (mb_tj C M s))); [assumption | apply in_or_app; auto].
+Qed.
+
+Lemma mb_inv_run init es : forall s outs,
+  mb_inv init s outs -> mb_new_ids s es ->
+  mb_inv init (fst (mb_run C M meqb ms s es)) (outs ++ suggested (snd (mb_run C M meqb ms s es))).
+Proof.
+  induction es as [|e r IH]; intros s outs I Hids; simpl.
+  - rewrite app_nil_r. assumption.
+  - destruct Hids as [Hid Hrest].
+    pose proof (mb_inv_step init s outs e I Hid) as I1.
+    destruct (mb_step C M meqb ms s e) as [s1 o1]. simpl in *.
+    pose proof (IH s1 _ I1 Hrest) as I2. destruct (mb_run C M meqb ms s1 r) as [s2 o2]. simpl in *.
+    rewrite suggested_app, app_assoc. assumption.
+Qed.
+
+Lemma mb_no_repeat pts num_init sz rt outer es :
+  NoDup pts ->
+  let s := mb_ctor C M pts num_init false sz rt outer in
+  mb_new_ids s es ->
+  NoDup (suggested (snd (mb_run C M meqb ms s es))) /\ ms_fresh pts (suggested (snd (mb_run C M meqb ms s es))).
+Proof.
+  intros Hnd s Hids.
+  assert (I0 : mb_inv pts s []).
+  { constructor; simpl; auto.
+    - intros c [].
+    - constructor.
+    - apply incl_refl.
+    - apply ms_fresh_nil. }
+  pose proof (mb_inv_run pts es s [] I0 Hids) as I. simpl in I. destruct I. auto.
+Qed.
+
+(* DEHB retry loop *)
+Lemma dehb_retry_new_not_excluded n e : forall cands c,
+  dehb_retry C M meqb ms n e cands = Some (DNew C c) -> ~ In (ms c) e.
+Proof.
+  induction n as [|n IH]; intros cands c H; simpl in H; [discriminate|].
+  destruct cands as [|[t|c0] r]; try discriminate.
+  destruct (excl_contains e c0) eqn:E; [eapply IH; eauto|].
+  injection H as <-. apply contains_notIn. assumption.
+Qed.
+
+Lemma dehb_retry_none n e : forall cands,
+  dehb_retry C M meqb ms n e cands = None ->
+  (length cands < n)%nat \/
+  exists pre rest, cands = map (DNew C) pre ++ rest /\ length pre = n /\ forall c, In c pre -> In (ms c) e.
+Proof.
+  induction n as [|n IH]; intros cands H; simpl in H.
+  - right. exists [], cands. simpl. repeat split; auto. intros c [].
+  - destruct cands as [|[t|c0] r]; [left; simpl; lia | discriminate |].
+    destruct (excl_contains e c0) eqn:E; [|discriminate].
+    destruct (IH r H) as [Hl|(pre & rest & -> & Hlen & Hin)]; [left; simpl; lia|].
+    right. exists (c0 :: pre), rest. simpl. repeat split; auto.
+    intros c [<-|Hc]; [apply contains_In; assumption | auto].
+Qed.
+
 (* ---------------- C16: get_state / clone_from_state -------------------- *)
 Definition rs_wf (s : rs_state) : Prop :=
   (rs_restrict _ _ s = None -> rs_rcpos _ _ s = None) /\
@@ -924,6 +1207,131 @@ Proof. exists None. reflexivity. Qed.
 Lemma mb_clone_fresh (s : mb_state C M) : mb_rs _ _ s = None -> mb_clone C M s (mb_get_state C M s) = s.
 Proof. intro H. destruct s; simpl in *; subst; reflexivity. Qed.
 
+
+(* ---------------- C16: GP clone, allow_duplicates = True: full bisimulation -------------
+   With allow_duplicates the internal random searcher never changes (it excludes nothing and
+   registers nothing), so dropping it in clone_from_state is unobservable. *)
+Definition mb_norm (s : mb_state C M) : mb_state C M := mb_with C M s (mb_p2e _ _ s) (mb_tj _ _ s) None.
+Definition mb_rs_fresh (s : mb_state C M) : Prop :=
+  mb_rs _ _ s = None \/ mb_rs _ _ s = Some (mb_fresh_rs C M s).
+
+Lemma rs_fresh_get_config (a : mb_state C M) ds r' c ds' :
+  mb_allow_dup _ _ a = true ->
+  rs_get_config (mb_fresh_rs C M a) ds = Ok (r', c, ds') -> r' = mb_fresh_rs C M a.
+Proof.
+  intros Had H.
+  pose proof (rs_get_random (mb_fresh_rs C M a) ds eq_refl eq_refl) as G.
+  destruct (sample_random C M meqb ms (rs_retries C M (mb_fresh_rs C M a)) (rs_size C M (mb_fresh_rs C M a))
+              (rs_excl C M (mb_fresh_rs C M a)) ds) as [[c1 ds1]|x]; rewrite G in H; [|discriminate].
+  injection H as <- _ _. unfold mb_fresh_rs, rs_with. simpl. rewrite Had. destruct c1; reflexivity.
+Qed.
+
+Lemma mb_random_loop_fresh (a : mb_state C M) e n : forall ds r' c ds',
+  mb_allow_dup _ _ a = true ->
+  mb_random_loop C M meqb ms n (mb_fresh_rs C M a) e ds = Ok (r', c, ds') -> r' = mb_fresh_rs C M a.
+Proof.
+  induction n as [|n IH]; intros ds r' c ds' Had H; simpl in H.
+  - injection H as <- _ _. reflexivity.
+  - destruct (rs_get_config (mb_fresh_rs C M a) ds) as [[[r1 c1] ds1]|x] eqn:Eg; [|discriminate].
+    apply rs_fresh_get_config in Eg; [|assumption]. subst r1.
+    destruct c1 as [c1|]; [|injection H as <- _ _; reflexivity].
+    destruct (excl_contains e c1); [eapply IH; eauto | injection H as <- _ _; reflexivity].
+Qed.
+
+Lemma mb_get_config_norm (a : mb_state C M) ds cands opt :
+  mb_rs_fresh a -> mb_get_config C M meqb ms a ds cands opt = mb_get_config C M meqb ms (mb_norm a) ds cands opt.
+Proof.
+  intros J. unfold mb_get_config. simpl.
+  replace (match mb_rs C M a with Some r => r | None => mb_fresh_rs C M a end) with (mb_fresh_rs C M a)
+    by (destruct J as [-> | ->]; reflexivity).
+  reflexivity.
+Qed.
+
+Lemma mb_get_config_keeps_fresh (a s' : mb_state C M) ds cands opt c ds' :
+  mb_allow_dup _ _ a = true -> mb_rs_fresh a ->
+  mb_get_config C M meqb ms a ds cands opt = Ok (s', c, ds') -> mb_rs_fresh s'.
+Proof.
+  intros Had J. unfold mb_get_config.
+  replace (match mb_rs C M a with Some r => r | None => mb_fresh_rs C M a end) with (mb_fresh_rs C M a)
+    by (destruct J as [-> | ->]; reflexivity).
+  destruct (mb_p2e C M a) as [|c0 rest].
+  - destruct (mb_pick_random C M a (tj_excl C M meqb ms (mb_tj C M a) false)).
+    + destruct (mb_random_loop C M meqb ms (mb_outer C M a) (mb_fresh_rs C M a)
+                  (tj_excl C M meqb ms (mb_tj C M a) false) ds) as [[[r' c'] ds'']|x] eqn:El; [|discriminate].
+      apply mb_random_loop_fresh in El; [|assumption]. subst r'.
+      intro H. injection H as <- _ _. right. reflexivity.
+    + destruct (mb_allow_dup C M a || negb (excl_exhausted M (mb_size C M a) (tj_excl C M meqb ms (mb_tj C M a) false)));
+        intro H; injection H as <- _ _; right; reflexivity.
+  - intro H. injection H as <- _ _. right. reflexivity.
+Qed.
+
+Definition mb_rel (a b : mb_state C M) : Prop :=
+  mb_norm a = mb_norm b /\ mb_rs_fresh a /\ mb_rs_fresh b /\ mb_allow_dup _ _ a = true.
+
+Lemma mb_norm_allow_dup (a b : mb_state C M) : mb_norm a = mb_norm b -> mb_allow_dup _ _ a = mb_allow_dup _ _ b.
+Proof. intro H. apply (f_equal (mb_allow_dup C M)) in H. exact H. Qed.
+
+Lemma mb_rel_step a b e : mb_rel a b ->
+  snd (mb_step C M meqb ms a e) = snd (mb_step C M meqb ms b e) /\
+  mb_rel (fst (mb_step C M meqb ms a e)) (fst (mb_step C M meqb ms b e)).
+Proof.
+  intros (Hn & Ja & Jb & Had).
+  assert (Hadb : mb_allow_dup _ _ b = true) by (rewrite <- (mb_norm_allow_dup a b Hn); exact Had).
+  destruct e as [t ds cands opt|t c|t|t].
+  - (* suggest: identical results *)
+    simpl. rewrite (mb_get_config_norm a ds cands opt Ja), (mb_get_config_norm b ds cands opt Jb), Hn.
+    pose proof (mb_get_config_norm b ds cands opt Jb) as Eb.
+    destruct (mb_get_config C M meqb ms (mb_norm b) ds cands opt) as [[[s' oc] ds']|x] eqn:Eg; simpl.
+    + assert (Js : mb_rs_fresh s') by (eapply (mb_get_config_keeps_fresh b); eauto).
+      assert (As : mb_allow_dup _ _ s' = true).
+      { destruct (mb_get_config_shape _ _ _ _ _ _ _ Eb) as (_ & E & _). rewrite E. exact Hadb. }
+      destruct oc as [c|]; simpl.
+      * unfold mb_register_pending.
+        destruct (mem_Z t (tj_pending C (mb_tj C M s'))); [split; [reflexivity | repeat split; auto]|].
+        destruct (mem_Z t (tj_obs C (mb_tj C M s'))); [split; [reflexivity | repeat split; auto]|].
+        simpl. split; [reflexivity|]. repeat split; auto.
+      * split; [reflexivity | repeat split; auto].
+    + split; [reflexivity | repeat split; auto].
+  - simpl. split; [reflexivity|].
+    destruct a as [pa ta ra na da sa rta oa], b as [pb tb rb nb db sb rtb ob].
+    unfold mb_rel, mb_update, mb_norm, mb_rs_fresh, mb_fresh_rs, mb_with in *. simpl in *.
+    injection Hn as -> -> -> -> -> -> ->. repeat split; auto.
+  - simpl. split; [reflexivity|].
+    destruct a as [pa ta ra na da sa rta oa], b as [pb tb rb nb db sb rtb ob].
+    unfold mb_rel, mb_update_nonfinite, mb_norm, mb_rs_fresh, mb_fresh_rs, mb_with in *. simpl in *.
+    injection Hn as -> -> -> -> -> -> ->.
+    destruct (lookupZ t (tj_cfg C tb)); simpl; repeat split; auto.
+  - simpl. split; [reflexivity|].
+    destruct a as [pa ta ra na da sa rta oa], b as [pb tb rb nb db sb rtb ob].
+    unfold mb_rel, mb_evaluation_failed, mb_norm, mb_rs_fresh, mb_fresh_rs, mb_with in *. simpl in *.
+    injection Hn as -> -> -> -> -> -> ->. repeat split; auto.
+Qed.
+
+Lemma mb_rel_run es : forall a b, mb_rel a b ->
+  snd (mb_run C M meqb ms a es) = snd (mb_run C M meqb ms b es) /\
+  mb_rel (fst (mb_run C M meqb ms a es)) (fst (mb_run C M meqb ms b es)).
+Proof.
+  induction es as [|e r IH]; intros a b R; simpl; [auto|].
+  destruct (mb_rel_step a b e R) as [Ho R1].
+  destruct (mb_step C M meqb ms a e) as [a1 oa]. destruct (mb_step C M meqb ms b e) as [b1 ob]. simpl in *.
+  destruct (IH a1 b1 R1) as [Ho2 R2].
+  destruct (mb_run C M meqb ms a1 r) as [a2 oa2]. destruct (mb_run C M meqb ms b1 r) as [b2 ob2]. simpl in *.
+  split; [congruence | assumption].
+Qed.
+
+Lemma mb_clone_bisimilar_allow_dup pts num_init sz rt outer hist cont :
+  let s1 := fst (mb_run C M meqb ms (mb_ctor C M pts num_init true sz rt outer) hist) in
+  snd (mb_run C M meqb ms (mb_clone C M s1 (mb_get_state C M s1)) cont) = snd (mb_run C M meqb ms s1 cont).
+Proof.
+  intros s1.
+  assert (R0 : mb_rel (mb_ctor C M pts num_init true sz rt outer) (mb_ctor C M pts num_init true sz rt outer)).
+  { repeat split; try (left; reflexivity). }
+  destruct (mb_rel_run hist _ _ R0) as [_ (_ & J1 & _ & A1)]. fold s1 in J1, A1.
+  assert (R1 : mb_rel (mb_clone C M s1 (mb_get_state C M s1)) s1).
+  { repeat split; auto. left. reflexivity. }
+  exact (proj1 (mb_rel_run cont _ _ R1)).
+Qed.
+
 End Proofs.
 
 (* ---------------- C06: keys, constants, casting (scheduler layer) ------ *)
@@ -996,6 +1404,23 @@ Proof.
   fold (cast_config_values cfg space). rewrite (lookupK_cast cfg space k e Hnd Hin).
   destruct (lookupK k cfg); reflexivity.
 Qed.
+Lemma lookupK_with_milestone (cfg : list (K * V)) mra m k :
+  lookupK k (with_milestone K V keqb cfg mra m) = if keqb k mra then Some m else lookupK k cfg.
+Proof.
+  unfold with_milestone. simpl. destruct (keqb k mra) eqn:E; [reflexivity|].
+  induction cfg as [|[k' v] r IH]; simpl; [reflexivity|].
+  destruct (keqb k' mra) eqn:E'; simpl.
+  - apply keqb_eq in E'. subst k'. rewrite E. exact IH.
+  - destruct (keqb k k'); [reflexivity | exact IH].
+Qed.
+
+(* suggest post-processes every suggestion that carries a configuration, new or resumed *)
+Lemma ts_suggest_config space (g : suggestion K V) cfg :
+  sg_config K V g = Some cfg ->
+  exists o, ts_suggest K V D keqb cast space (Some g) = Some o /\
+            so_config K V D o = Some (postprocess_config cfg space) /\
+            so_spawn_new K V D o = sg_spawn_new K V g /\ so_checkpoint K V D o = sg_checkpoint K V g.
+Proof. intro H. eexists. split; [reflexivity|]. simpl. rewrite H. auto. Qed.
 End PostprocessProofs.
 
 (* ---------------- itertools.product ------------------------------------ *)
